@@ -221,10 +221,13 @@ Definition project_name (opt : option text) (roots : list text) : text :=
 (* Documentable.url: list(self.system.root_names) == [page_obj.fullName()] *)
 Definition url_is_index (pi : set_order) (roots : list text) (fn : text) : bool :=
   path_eqb (root_names pi roots) [fn].
-(* writer.writeSummaryPages: if len(root_names) == 1: list(root_names)[0] + '.html' *)
+(* writer.writeSummaryPages: if len(root_names) == 1: p = list(root_names)[0] + '.html'; if p != 'index.html': relink p *)
+Definition index_html : text := [105; 110; 100; 101; 120; 46; 104; 116; 109; 108]%N.
 Definition symlink_of (pi : set_order) (roots : list text) : option text :=
   if Nat.eqb (length (root_names pi roots)) 1
-  then Some (nth 0 (root_names pi roots) [] ++ dot_html) else None.
+  then let p := nth 0 (root_names pi roots) [] ++ dot_html in
+       if negb (text_eqb p index_html) then Some p else None
+  else None.
 (* summary.summaryPages: len(system.root_names) > 1 *)
 Definition has_index_page (pi : set_order) (roots : list text) : bool := Nat.ltb 1 (length (root_names pi roots)).
 (* linker: fullID[:root_idx] not in root_names *)
@@ -291,6 +294,16 @@ Definition def_has_fullname (def : list kcomp) : bool := existsb (kcomp_eqb KFul
 Definition assign_ids (last : N) (n : nat) : list N * N :=
   (map (fun i => (last + N.of_nat i)%N) (seq 1 n), (last + N.of_nat n)%N).
 
+(* ------------------------------------------------------------------ build time
+   System.__init__: buildtime = now(); driver.get_system then applies the sources in the order the code has them
+   (as regenerated): SOURCE_DATE_EPOCH if set, then --buildtime if given. Parse errors abort the run (not modelled). *)
+Definition apply_bt (env opt : option Z) (cur : Z) (s : bt_source) : Z :=
+  match s with
+  | BEnvEpoch => match env with Some e => e | None => cur end
+  | BOption => match opt with Some t => t | None => cur end
+  end.
+Definition buildtime (env opt : option Z) (now : Z) : Z := fold_left (apply_bt env opt) buildtime_sources now.
+
 (* ------------------------------------------------------------------ the output directory *)
 Inductive entry := Bytes (content : N) | Symlink (target : text).
 Definition fsmap := list (text * entry).
@@ -329,6 +342,32 @@ Definition write_names (ops : list op) : list text :=
 Definition relink_names (ops : list op) : list text :=
   flat_map (fun o => match o with Relink n _ => [n] | Write _ _ => [] end) ops.
 
+(* ------------------------------------------------------------------ TemplateLookup.add_templatedir
+   Template.fromdir yields the files of a template directory in LISTING order (unsorted iterdir);
+   TemplateLookup.add_template keys them by lower-cased name: a later template with the same key replaces the CONTENT
+   but keeps the NAME of the earlier one (static templates only; the HTML/static and directory clashes raise). *)
+Definition tmpl := (text * N)%type.                       (* (file name, content) *)
+Definition tlookup := list (text * tmpl).                 (* CaseInsensitiveDict: lower-cased key -> (name, content) *)
+
+Section Templates.
+  Variable lower : text -> text.
+  Fixpoint tl_add (lk : tlookup) (t : tmpl) : tlookup :=
+    match lk with
+    | [] => [(lower (fst t), t)]
+    | (k, old) :: r =>
+        if text_eqb k (lower (fst t)) then (k, (fst old, snd t)) :: r else (k, old) :: tl_add r t
+    end.
+  Definition load_dir (pi : list tmpl -> list tmpl) (files : list tmpl) (base : tlookup) : tlookup :=
+    fold_left tl_add (pi files) base.
+End Templates.
+Fixpoint tl_lookup (k : text) (lk : tlookup) : option tmpl :=
+  match lk with
+  | [] => None
+  | (k', v) :: r => if text_eqb k' k then Some v else tl_lookup k r
+  end.
+(* prepOutputDirectory: one truncating write per template, under the stored name *)
+Definition static_ops (lk : tlookup) : list op := map (fun e => Write (fst (snd e)) (snd (snd e))) lk.
+
 (* ------------------------------------------------------------------ wire codec
    input := ( fn ... )
      fn 0: ( 0 roots )            roots := list of ( pid node ) ; node := ( 0 name ) | ( 1 name node ... )
@@ -340,7 +379,9 @@ Definition relink_names (ops : list op) : list text :=
            -> ( project_name old_guess url_is_index symlink has_index is_root rootkinds )
      fn 3: ( 3 ops prev )         op := ( 0 name content ) | ( 1 name target ) ; prev := list of ( name 0 content ) | ( name 1 target )
            -> final directory sorted by name
-     fn 4: ( 4 last n ) -> ( ids last' )  *)
+     fn 4: ( 4 last n ) -> ( ids last' )
+     fn 5: ( 5 files base )       files/base := list of ( name content ), files in LISTING order
+           -> the template lookup as list of ( name content ) in dict order  *)
 Fixpoint node_of_sexp (fuel : nat) (s : sexp) : fsnode :=
   match fuel with
   | O => FFile []
@@ -418,5 +459,10 @@ Definition run (s : sexp) : sexp :=
   | 4 =>
       let '(ids, last') := assign_ids (to_N (nth_s 1 s)) (to_nat (nth_s 2 s)) in
       L [L (map of_N ids); of_N last']
+  | 5 =>
+      let rd := fun x => (to_text (nth_s 0 x), to_N (nth_s 1 x)) in
+      let files := map rd (to_list (nth_s 1 s)) in
+      let base := fold_left (tl_add ascii_lower) (map rd (to_list (nth_s 2 s))) [] in
+      L (map (fun e => L [of_text (fst (snd e)); of_N (snd (snd e))]) (load_dir ascii_lower (fun l => l) files base))
   | _ => bad_input
   end.
